@@ -401,7 +401,7 @@ theorem good_where {S : Sem Val Err Op} {w w3 : World Val Err Op} (g : Good S w)
           exact ⟨e12.argClean hadm.1, ce, hce2⟩
     · exact g1.inLt
     · intro q hq
-      have hq0 : q ∈ w.inputs := by simpa [allocParam] using hq
+      have hq0 : q ∈ w.inputs := by simpa [w2, w1, allocParam] using hq
       have hne : (q == w.nparams) = false := by
         have := Nat.ne_of_lt (g.inLt q hq0); simpa using this
       show List.lookup q (w1.trigs ++ [(w.nparams, cps)]) = none
@@ -429,24 +429,20 @@ theorem good_where {S : Sem Val Err Op} {w w3 : World Val Err Op} (g : Good S w)
     · intro hne
       have hsub := supp_sub_refs g.dep hadm.2.1 h5 h2
       have hxr : xr.isEmpty = false := by
+        obtain ⟨a, ha⟩ := List.exists_mem_of_ne_nil _ hne
+        have := hsub a ha
         cases hh : xr with
-        | nil =>
-          exfalso; apply hne
-          cases hs : supp xe' with
-          | nil => rfl
-          | cons a as => have := hsub a (by simp [hs]); simp [hh] at this
-        | cons a as => rfl
+        | nil => rw [hh] at this; simp at this
+        | cons b bs => rfl
       exact ⟨xr, by simp [w2, hxr], hsub⟩
     · intro hne
       have hsub := supp_sub_refs g.dep hadm.2.2 h6 h3
       have hyr : yr.isEmpty = false := by
+        obtain ⟨a, ha⟩ := List.exists_mem_of_ne_nil _ hne
+        have := hsub a ha
         cases hh : yr with
-        | nil =>
-          exfalso; apply hne
-          cases hs : supp ye' with
-          | nil => rfl
-          | cons a as => have := hsub a (by simp [hs]); simp [hh] at this
-        | cons a as => rfl
+        | nil => rw [hh] at this; simp at this
+        | cons b bs => rfl
       exact ⟨yr, by simp [w2, hyr], hsub⟩
 
 /-- **every statement keeps the invariants** -/
@@ -519,7 +515,74 @@ theorem good_step {S : Sem Val Err Op} (hEq : ∀ a b, S.isEqual a b = true → 
             simp only [copyNode, run, hnone, Prod.mk.injEq] at h1
             obtain ⟨rfl, rfl⟩ := h1
             simp only [outOfExn, Prod.mk.injEq] at h; exact hbad h.1.symm
-  | meth n oo args => sorry
+  | meth n oo args =>
+    simp only [step] at h
+    split at h
+    · simp only [Prod.mk.injEq] at h; exact absurd h.1.symm hbad
+    · cases hn : w.nodes[n]? with
+      | none => simp only [hn, Prod.mk.injEq] at h; exact absurd h.1.symm hbad
+      | some nd =>
+        simp only [hn] at h
+        -- rx.__getattribute__: `if dirty: self._resolve()`
+        have stage0 : ∀ (r : Res Err Val) (w1 : World Val Err Op),
+            (if nd.dirty = true then run S fuel (.resolve n) w else (.ok nd.current, w)) = (r, w1) →
+            r ≠ .error .fuel → Good S w1 ∧ Grow w w1 ∧ ∃ nd1, w1.nodes[n]? = some nd1 := by
+          intro r w1 hr hrf
+          split at hr
+          · obtain ⟨g1, p1⟩ := good_run g (call := .resolve n) ⟨trivial, nd, hn⟩ hr hrf
+            obtain ⟨nd1, h1, _⟩ := p1.stat.node hn
+            exact ⟨g1, Grow.of_staticEq p1.stat, nd1, h1⟩
+          · simp only [Prod.mk.injEq] at hr; obtain ⟨_, rfl⟩ := hr
+            exact ⟨g, Grow.refl _, nd, hn⟩
+        cases h0 : (if nd.dirty = true then run S fuel (.resolve n) w else (.ok nd.current, w)) with
+        | mk r0 w1 =>
+          simp only [h0] at h
+          cases r0 with
+          | error x =>
+            simp only [Prod.mk.injEq] at h; obtain ⟨rfl, rfl⟩ := h
+            obtain ⟨a, _⟩ := outOfExn_ne hf hbad
+            exact (stage0 _ _ h0 (fun hh => a (by cases hh; rfl))).1
+          | ok cur =>
+            obtain ⟨g1, gr1, hn1⟩ := stage0 _ _ h0 (by simp)
+            simp only at h
+            split at h
+            · simp only [Prod.mk.injEq] at h; obtain ⟨_, rfl⟩ := h; exact g1
+            · cases h2 : copyNode S fuel n w1 with
+              | mk r2 w2 =>
+                simp only [h2] at h
+                cases r2 with
+                | error x =>
+                  simp only [Prod.mk.injEq] at h; obtain ⟨rfl, rfl⟩ := h
+                  obtain ⟨a, b⟩ := outOfExn_ne hf hbad
+                  exact (good_copyNode g1 hn1 h2 (fun hh => a (by cases hh; rfl)) (fun hh => b (by cases hh; rfl))).1
+                | ok c1 =>
+                  obtain ⟨g2, gr2, hc1⟩ := good_copyNode g1 hn1 h2 (by simp) (by simp)
+                  simp only at h
+                  cases h3 : copyNode S fuel c1 w2 with
+                  | mk r3 w3 =>
+                    simp only [h3] at h
+                    cases r3 with
+                    | error x =>
+                      simp only [Prod.mk.injEq] at h; obtain ⟨rfl, rfl⟩ := h
+                      obtain ⟨a, b⟩ := outOfExn_ne hf hbad
+                      exact (good_copyNode g2 (hc1 c1 rfl) h3 (fun hh => a (by cases hh; rfl))
+                        (fun hh => b (by cases hh; rfl))).1
+                    | ok c2 =>
+                      obtain ⟨g3, gr3, hc2⟩ := good_copyNode g2 (hc1 c1 rfl) h3 (by simp) (by simp)
+                      simp only at h
+                      have hcl : ∀ a ∈ args, ArgClean w3.stat a := fun a ha => gr3 a (gr2 a (gr1 a (hadm a ha)))
+                      cases h4 : deriveNode S fuel c2 { op := oo, args := args, reverse := false } w3 with
+                      | mk r4 w4 =>
+                        simp only [h4] at h
+                        cases r4 with
+                        | error x =>
+                          simp only [Prod.mk.injEq] at h; obtain ⟨rfl, rfl⟩ := h
+                          obtain ⟨a, b⟩ := outOfExn_ne hf hbad
+                          exact (good_deriveNode g3 (hc2 c2 rfl) hcl h4 (fun hh => a (by cases hh; rfl))
+                            (fun hh => b (by cases hh; rfl))).1
+                        | ok d =>
+                          simp only [Prod.mk.injEq] at h; obtain ⟨_, rfl⟩ := h
+                          exact (good_deriveNode g3 (hc2 c2 rfl) hcl h4 (by simp) (by simp)).1
   | bind gg args =>
     simp only [step] at h
     cases hes : argExprs w args with
@@ -537,11 +600,11 @@ theorem good_step {S : Sem Val Err Op} (hEq : ∀ a b, S.isEqual a b = true → 
     simp only [step] at h
     split at h
     · simp only [Prod.mk.injEq] at h; exact absurd h.1.symm hbad
-    · rename_i cps xr yr ce xe ye _ h1 h2 h3 h4 h5 h6
+    · rename_i cps xr yr ce xe ye _ hx hy hxe hye hc hce
       split at h
       · rename_i w3 hmk
         simp only [Prod.mk.injEq] at h; obtain ⟨_, rfl⟩ := h
-        exact good_where g hadm h1 h2 h3 h4 h5 h6 hmk
+        exact good_where g hadm hc hx hy hce hxe hye hmk
       · simp only [Prod.mk.injEq] at h; exact absurd h.1.symm hbad
     · simp only [Prod.mk.injEq] at h; exact absurd h.1.symm hbad
   | watch n =>
